@@ -5,6 +5,7 @@ from .. import rfc6455 as R
 from ..harness import S, HOST, Result, InvalidScenario, std_world, exc_name
 from ..kernel import SimAbort
 from ..runner import derive_seed
+from .. import seams
 
 ID = "C08"
 LEVEL = "exploration"
@@ -15,9 +16,12 @@ RULE = ("scenario = history of <=10 client steps {send, recv, ping, close(status
         "time}; statuses include -1, 0, 999, 1000, 4999, 65535, 65536.  Reference state machine checked after every "
         "step: (1) <=1 close frame written by close() or as automatic reply; (2) it carries !H status || reason; (3) "
         "out-of-range status => ValueError (or no-op when already closed), zero bytes written; (4) after close() "
-        "returned or a receive call observed the loss, the socket is closed and every later send/recv/ping raises "
+        "returned or a receive or send call observed the loss, the socket is closed and every later send/recv/ping raises "
         "WebSocketConnectionClosedException with no socket operation logged; (5) close(timeout=t) returns within t "
-        "virtual seconds.  non-trivial = the history contains a close, a loss or an out-of-range status; distinct = "
+        "virtual seconds.  Threaded part: a second thread sits in recv()/recv_data()/recv_data_frame() (blocking or with a socket "
+        "timeout) while this thread calls close() under coop/prob/pct schedules, the server possibly starting its own "
+        "closing handshake at the same moment: <=1 close frame on the wire, close() returns within its timeout and releases "
+        "the transport, the reader ends with a documented exception.  non-trivial = the history contains a close, a loss or an out-of-range status; distinct = "
         "(step kinds, peer reaction, loss kind, status classes)")
 ASSUMPTIONS = ["a user's explicit send_close is not 'own initiative' and is counted separately",
                "after the server's close frame was received, what send/recv/ping do before close() is not pinned down",
@@ -32,10 +36,50 @@ def plan(tier, seed):
     per = 500 if tier == "quick" else 4000
     for s in range(0, n, per):
         items.append({"kind": "rand", "start": s, "count": per})
+    items.append({"kind": "tgrid", "exhaustive": "reader thread {recv, recv_data, recv_data_frame} x socket timeout {none, 2 s} x every peer reaction x close timeout x 2 policies"})
+    nt = 3000 if tier == "quick" else 60000
+    for s in range(0, nt, per // 2):
+        items.append({"kind": "trand", "start": s, "count": per // 2})
     return items
 
 
+T_POLICIES = [{"kind": "coop", "p_call": 0.3}, {"kind": "prob", "p_line": 1 / 256, "p_call": 0.2}, {"kind": "prob", "p_line": 1 / 16, "p_call": 0.3},
+              {"kind": "pct", "d": 2, "len": 1200}]
+
+
+def genT(rng):
+    """a second thread sits in a receive call while this thread closes the connection."""
+    script = []
+    t = 0
+    for _ in range(rng.randrange(0, 3)):
+        t += rng.choice((0, S // 4, S))
+        script.append({"t": t, "hex": R.encode_frame(1, rng.choice((1, 2, 9)), b"d%d" % rng.randrange(100)).hex()})
+    sc = {"kind": "threaded", "reader": rng.choice(("recv", "recv_data_frame", "recv_data")), "timeout": rng.choice((None, None, S, 2 * S)),
+          "pre": [{"op": rng.choice(("send", "ping")), "len": rng.choice((0, 3, 200))} for _ in range(rng.randrange(0, 3))],
+          "wait": rng.choice((0, S // 8, S // 2, 2 * S)), "status": rng.choice((1000, 1001, 3000, 4999)), "rlen": rng.choice((0, 5, 123)),
+          "close_timeout": rng.choice((S // 2, S, 3 * S)), "script": script,
+          "reaction": rng.choice(("reply", "reply", "reply_fast", "reply_slow", "never", "eof", "chatty_then_close")),
+          "policy": dict(rng.choice(T_POLICIES)), "seed": rng.randrange(1 << 30)}
+    if rng.random() < 0.2:
+        # the server starts the closing handshake itself at about the same time
+        sc["peer_close_at"] = sc["wait"] + rng.choice((-S // 16, 0, 0, S // 16))
+    return sc
+
+
 def expand(item, seed):
+    if item["kind"] == "tgrid":
+        for reader in ("recv", "recv_data_frame", "recv_data"):
+            for tmo in (None, 2 * S):
+                for reaction in ("reply", "reply_fast", "reply_slow", "never", "eof", "chatty_then_close"):
+                    for ct in (S // 2, 3 * S):
+                        for pol in T_POLICIES[:2]:
+                            yield {"kind": "threaded", "reader": reader, "timeout": tmo, "pre": [], "wait": S // 4, "status": 1000, "rlen": 2,
+                                   "close_timeout": ct, "script": [], "reaction": reaction, "policy": dict(pol), "seed": 3}
+        return
+    if item["kind"] == "trand":
+        for i in range(item["start"], item["start"] + item["count"]):
+            yield genT(random.Random(derive_seed(seed, ID + "T", i)))
+        return
     if item["kind"] == "grid":
         for reaction in REACTIONS:
             for st in STATUSES:
@@ -127,7 +171,151 @@ def _reaction_cfg(reaction, tmo_hint):
     raise InvalidScenario("reaction")
 
 
+def runT(sc, choices):
+    res = Result()
+    try:
+        reader = sc["reader"]
+        if reader not in ("recv", "recv_data_frame", "recv_data"):
+            raise InvalidScenario("reader")
+        T = sc.get("timeout")
+        if T is not None and int(T) < 1024:
+            raise InvalidScenario("timeout")
+        ct = int(sc["close_timeout"])
+        if ct < 1024:
+            raise InvalidScenario("close timeout")
+        status = int(sc.get("status", 1000))
+        if not 0 <= status <= 65535:
+            raise InvalidScenario("status")
+        reason = b"r" * int(sc.get("rlen", 0))
+        if len(reason) > 123:
+            raise InvalidScenario("rlen")
+        reaction = sc.get("reaction", "reply")
+        oc = _reaction_cfg(reaction, 0)
+        script = list(sc.get("script", ()))
+        for it in script:
+            fr, pos = R.decode_all(bytes.fromhex(it["hex"]))
+            if pos != len(bytes.fromhex(it["hex"])) or any(f.opcode == 8 for f in fr):
+                raise InvalidScenario("script")
+        pca = sc.get("peer_close_at")
+        if pca is not None:
+            script.append({"t": max(0, int(pca)), "hex": R.encode_frame(1, 8, b"\x03\xe9").hex(), "close": True})
+        wait = int(sc.get("wait", 0))
+        policy = dict(sc.get("policy") or {"kind": "coop"})
+        pre = list(sc.get("pre", ()))
+        if len(pre) > 4 or any(p_["op"] not in ("send", "ping") for p_ in pre):
+            raise InvalidScenario("pre")
+    except (KeyError, TypeError, ValueError) as e:
+        raise InvalidScenario(str(e))
+    peer_cfg = {"script": script, "on_close": oc, "on_ping": {"mode": "pong"}, "eof_on_client_eof": True}
+    w, peers = std_world(seed=int(sc.get("seed", 1)), peer_cfg=peer_cfg, policy=policy, choices=choices, step_cap=400_000)
+    rd = {"end": None, "n": 0}
+    out = {}
+    with w:
+        ws = w.ws
+        c = ws.WebSocket(enable_multithread=True)
+        if T is not None:
+            c.settimeout(int(T) / S)
+        c.connect(f"ws://{HOST}/")
+        conn = w.net.conns[0]
+        sock = w.net.sockets[0]
+
+        def reader_main():
+            while True:
+                try:
+                    if reader == "recv":
+                        c.recv()
+                    elif reader == "recv_data":
+                        c.recv_data(True)
+                    else:
+                        c.recv_data_frame(True)
+                    rd["n"] += 1
+                    if rd["n"] > 200:
+                        rd["end"] = ("runaway", None)
+                        return
+                except SimAbort:
+                    raise
+                except ws.WebSocketTimeoutException:
+                    if out.get("closed_at") is not None and w.k.now > out["closed_at"] + 4 * S:
+                        rd["end"] = ("still timing out", None)
+                        return
+                except BaseException as e:  # noqa
+                    rd["end"] = (exc_name(e), isinstance(e, (ws.WebSocketException, OSError)))
+                    return
+
+        th = seams.SimThread(target=reader_main, name="reader")
+        try:
+            if policy.get("kind") in ("prob", "pct", "at"):
+                w.k.start_tracing()
+            th.start()
+            try:
+                for p_ in pre:
+                    if p_["op"] == "send":
+                        c.send("x" * int(p_.get("len", 1)))
+                    else:
+                        c.ping(b"k")
+                if wait:
+                    w.k.sleep(wait)
+                log0 = len(w.k.log)
+                t0 = w.k.now
+                try:
+                    c.close(status, reason, timeout=ct / S)
+                    out["exc"] = None
+                except SimAbort:
+                    raise
+                except BaseException as e:  # noqa
+                    out["exc"] = e
+                out["dt"] = w.k.now - t0
+                out["closed_at"] = w.k.now
+                out["released"] = (sock.closed, c.sock is None, c.connected)
+                out["delivered"] = any(e[3] == "deliver" and e[4] == sock.fd and e[5] > 0 for e in w.k.log[log0:])
+                th.join(timeout=(int(T or 0) + ct + 8 * S) / S)
+                out["reader_alive"] = th.is_alive()
+            except SimAbort:
+                out["abort"] = w.k.abort_reason
+        finally:
+            if w.k.tracing:
+                w.k.stop_tracing()
+        frames, pos = R.decode_all(bytes(conn.rx[STD_REQ(conn):]))
+    res.absorb(w)
+    rctx = "reader_thread"
+    closes = [f for f in frames if f.opcode == 8]
+    if "abort" in out or "dt" not in out:
+        res.violate("call_hangs", rctx, f"close() with a thread in {reader}() (socket timeout {None if T is None else int(T) / S}): run aborted "
+                    f"({out.get('abort') or w.k.abort_reason}); peer reaction {reaction}; reader end {rd['end']}")
+    else:
+        slack = S // 16 + w.k.stall_ticks
+        if len(closes) > 1:
+            res.violate("second_close_frame", rctx, f"{len(closes)} close frames on the wire: {[f.payload[:2].hex() for f in closes]} (close() in one thread, "
+                        f"automatic reply in the reader thread); reaction {reaction}")
+        if out["exc"] is not None:
+            res.violate("close_raised", rctx, f"close() raised {exc_name(out['exc'])}: {out['exc']}")
+        if out["released"] != (True, True, False):
+            res.violate("transport_not_released_by_close", rctx, f"after close(): socket closed={out['released'][0]} ws.sock is None={out['released'][1]} "
+                        f"connected={out['released'][2]}")
+        if out["dt"] > ct + slack:
+            res.violate("close_exceeds_timeout", rctx,
+                        f"close(timeout={ct / S}) took {out['dt'] / S} virtual s with a reader thread in {reader}(); socket timeout "
+                        f"{None if T is None else int(T) / S}; peer reaction {reaction}")
+        if out["reader_alive"] or rd["end"] is None:
+            res.violate("reader_never_ends", rctx, f"the thread in {reader}() is still there {(int(T or 0) + ct + 8 * S) / S} s after close() returned")
+        elif rd["end"][1] is not True:
+            res.violate("unexpected_exception", rctx, f"reader thread ended with {rd['end'][0]}")
+    res.sig = repr(("T", reader, T is None, reaction, len(closes), rd["end"][0] if rd["end"] else None, res.sched))
+    res.nontrivial = True
+    res.probes["reader_thread"] = 1
+    res.probes["reaction_" + reaction] = 1
+    return res
+
+
+def STD_REQ(conn):
+    """offset of the first byte after the HTTP request in what the server side received."""
+    i = bytes(conn.rx).find(b"\r\n\r\n")
+    return i + 4 if i >= 0 else 0
+
+
 def run(sc, choices=None):
+    if sc.get("kind") == "threaded":
+        return runT(sc, choices)
     res = Result()
     try:
         steps = list(sc["steps"])
@@ -247,6 +435,8 @@ def run(sc, choices=None):
                 # the transport failed under a write: what the connection is afterwards is not pinned down, except that
                 # close() must still release it and that no second close frame may be started
                 own_close_frames += (len(closes) + int(partial_close)) if op in ("close", "recv") else 0
+                errs = [e[5] for e in w.k.log[log0:] if e[3] == "send_error"]
+                permanent = any(x in ("EPIPE", "ECONNRESET") for x in errs)
                 if op == "close":
                     if exc is not None:
                         res.violate("close_raised", ctx, f"close() raised {ename}: {exc}")
@@ -254,8 +444,20 @@ def run(sc, choices=None):
                     if not sock.closed or c.sock is not None or c.connected:
                         res.violate("transport_not_released_by_close", "close/BROKEN", f"after close() on a failed transport: socket closed={sock.closed}")
                         break
+                    tmo = int(st.get("timeout", S))
+                    if state == "OPEN" and dt > tmo + S // 16:
+                        res.violate("close_exceeds_timeout", "write_blocks", f"close(timeout={tmo / S}) took {dt / S} virtual s: its own close frame "
+                                    f"could not be written ({errs}), socket timeout {None if T is None else T / S}")
+                        break
                     state = "CLOSED"
                 elif op == "shutdown":
+                    state = "CLOSED"
+                elif permanent and isinstance(exc, (ConnectionError, ws.WebSocketConnectionClosedException)):
+                    # the call itself reported that the connection is gone: that is a loss like one seen by a receive call
+                    if not sock.closed or c.sock is not None or c.connected:
+                        res.violate("transport_not_released_after_loss", "send_path",
+                                    f"{op} raised {ename} ({errs}); socket closed={sock.closed} ws.sock is None={c.sock is None} connected={c.connected}")
+                        break
                     state = "CLOSED"
                 else:
                     state = "BROKEN"
@@ -386,5 +588,7 @@ class _EveryGap(dict):
 
 
 def sample_view(sc, r):
+    if sc.get("kind") == "threaded":
+        return {k: sc.get(k) for k in ("reader", "timeout", "pre", "wait", "status", "close_timeout", "script", "reaction", "policy", "peer_close_at")}
     return {"steps": sc["steps"], "peer_script": [{k: v for k, v in it.items()} for it in sc.get("script", ())],
             "reaction": sc.get("reaction"), "socket_timeout_ticks": sc.get("timeout"), "send_fault": sc.get("send_fault")}
